@@ -306,8 +306,9 @@ class Exec:
             self.cache.save_value(self.final, KEY, 0)
             self.produced.append(0)
         if stale:
+            # (longer than any entry a caller will write: a writer that does not truncate publishes its entry with this tail)
             with _orig['open'](self.tmp, 'w') as f:
-                f.write('{"key":"k')
+                f.write('{"key":"k' + 'x' * 300)
         if corrupt and not pre:
             # an unreadable entry at the final path: what a crashed in-place writer of an older release left behind
             with _orig['open'](self.final, 'w') as f:
